@@ -18,14 +18,18 @@
 (* call must be the one the machine is waiting for (no call when the        *)
 (* program is exhausted), with exactly the input state, rounds and key the  *)
 (* machine predicts.  TRet requires the program to be exhausted and the     *)
-(* outputs to be the machine's verdict.                                     *)
+(* outputs to be the machine's verdict.  Calls answered by the real         *)
+(* permutation are in addition judged by the functional specification      *)
+(* ("functional" flags): this tells a tree that computes the right values   *)
+(* with a different call structure (seam not applicable, fam_mode.py) from  *)
+(* one that computes wrong values.                                          *)
 (***************************************************************************)
-EXTENDS TVBase, TJMode
+EXTENDS TVBase, TJModeFn
 
 VARIABLES l, q, live
 vars == <<l, q, live>>
 
-Idle == [c |-> [op |-> "none", v |-> 128, k |-> <<>>, n |-> <<>>, ad |-> <<>>, x |-> <<>>], stage |-> 2,
+Idle == [c |-> [op |-> "none", v |-> 128, k |-> <<>>, n |-> <<>>, ad |-> <<>>, x |-> <<>>, pm |-> 1], stage |-> 2,
          S |-> Z16, R |-> Z16, L2 |-> Z16, o |-> <<>>, t |-> <<>>, prog |-> <<>>]
 
 TReset == Tr[l].e = "Reset" /\ q' = Idle /\ live' = FALSE
@@ -34,7 +38,7 @@ TCall ==
     /\ Tr[l].e = "Call"
     /\ LET e == Tr[l] IN
        /\ Judge(~live, l, e, "a call begins while another is in progress")
-       /\ q' = Start([op |-> e.op, v |-> e.v, k |-> e.k, n |-> e.n, ad |-> e.ad, x |-> e.x])
+       /\ q' = Start([op |-> e.op, v |-> e.v, k |-> e.k, n |-> e.n, ad |-> e.ad, x |-> e.x, pm |-> e.pm % 100])
     /\ live' = TRUE
 
 TPerm ==
@@ -63,6 +67,12 @@ TRet ==
                           /\ e.out = x.out
                           /\ (e.res = 0 => e.len = Len(x.out)), l, e, x)
                ELSE Judge(e.res < 0 /\ e.untouched = 1, l, e, x)
+          ELSE TRUE
+       \* answered by the real permutation throughout: the public result is also the functional specification's value
+       /\ IF live /\ q.c.pm = 0
+          THEN LET f == Functional(q.c) IN
+               Judge(IF f.wrote THEN e.res = f.res /\ e.out = f.out ELSE e.res < 0 /\ e.untouched = 1,
+                     l, e, [what |-> "functional", want |-> f])
           ELSE TRUE
     /\ q' = Idle /\ live' = FALSE
 
